@@ -8,6 +8,9 @@ package main
 import (
 	"encoding/json"
 	"fmt"
+	"io"
+	"log"
+	"log/slog"
 	"os"
 	"runtime"
 	"strconv"
@@ -31,6 +34,8 @@ func root() string {
 }
 
 func main() {
+	slog.SetDefault(slog.New(slog.NewTextHandler(io.Discard, nil)))
+	log.SetOutput(io.Discard)
 	if len(os.Args) < 2 {
 		fmt.Fprintln(os.Stderr, "usage: vharness check|worker|replay ...")
 		os.Exit(2)
